@@ -1,6 +1,7 @@
 package main
 
 import (
+	errorsmod "cosmossdk.io/errors"
 	"crypto/sha256"
 	"encoding/hex"
 	"encoding/json"
@@ -708,7 +709,8 @@ func (s *appState) runMsgOn(d *driver, m sdk.Msg, commit bool) (res string, evs 
 		r, err := h(cacheCtx, m)
 		if err != nil {
 			res = "err"
-			errTxt = err.Error()
+			cs, _, _ := errorsmod.ABCIInfo(err, false)
+			errTxt = "codespace=" + cs + "; " + err.Error()
 			return
 		}
 		res = "ok"
@@ -733,7 +735,15 @@ func (s *appState) msg(d *driver, f []string) string {
 		return "bad-op"
 	}
 	res, evs, errTxt := s.runMsg(d, m)
-	return fmt.Sprintf("res=%s ev=%s st=%s req=%s errtxt=%s", res, orbiterEventNames(evs), s.stateStr(s.env.Ctx), s.reqFromEvents(evs), hx(errTxt))
+	ecs := ""
+	if res == "err" {
+		// whose refusal: an error registered under the module's own codespace, or another module's handed through
+		ecs = " ecs=ext"
+		if strings.Contains(errTxt, "codespace=orbiter;") {
+			ecs = " ecs=orbiter"
+		}
+	}
+	return fmt.Sprintf("res=%s ev=%s st=%s req=%s%s errtxt=%s", res, orbiterEventNames(evs), s.stateStr(s.env.Ctx), s.reqFromEvents(evs), ecs, hx(errTxt))
 }
 
 // msgdry <rpc> <signerStringHex> args...: the message executed on a discarded branch.
